@@ -115,11 +115,31 @@ def _create(ctx, vip, rule, epm):
                 # from the EEXIST branch the normal exit is reached only by
                 # (a) return False, or (b) the false edge of an
                 # `existing_owner != <caller>` test
-                def same_owner(e):
+                def same_owner(e, func=func, defs=defs):
+                    # <what the existing link records> == <a parameter of
+                    # the routine>, both as they are (a comparison of parts
+                    # of them - the instance without the container id -
+                    # takes a link of another container for the caller's)
+                    params = set(func.params())
                     for atom in nz.facts_of_edge(e):
-                        if atom.key[0] == 'cmp' and atom.key[1] == '==' \
-                                and any('owner' in t or 'appname' in t
-                                        for t, _c in atom.key[2]):
+                        if not (atom.key[0] == 'cmp' and
+                                atom.key[1] == '==' and
+                                len(atom.key[2]) == 2):
+                            continue
+                        terms = [t for t, _c in atom.key[2]]
+                        exp = []
+                        for t in terms:
+                            if t in defs and len(defs[t]) == 1:
+                                exp.append(N.txt(defs[t][0]))
+                            else:
+                                exp.append(t)
+                        recorded = [x for x in exp if 'readlink(' in x and (
+                            x.startswith('os.readlink(') or
+                            x.startswith('os.path.basename(os.readlink('))]
+                        caller = [x for x in exp if x in params or (
+                            x.startswith('os.path.basename(') and
+                            x[17:-1] in params)]
+                        if recorded and caller:
                             return True
                     return False
 
